@@ -75,6 +75,14 @@ func configs14(tier string) []xplore.Config {
 	for _, w1b := range [][]wop{{{"remove", ""}}, {{"remove", ""}, {"add", ""}}} {
 		out = append(out, xplore.Config{Name: fmt.Sprintf("X=t1 W(t1)=upd a/b || W'(t1)=%s W(t2)=upd a/b, then a sequential update of t1", scriptName(w1b)), Bound: bound, Data: cfg14{w1: []wop{{"upd", "a/b"}}, w2: []wop{{"upd", "a/b"}}, w1b: w1b, missingOnly: true, probe: true}})
 	}
+	// a target that flaps - update, Reset, refill, Reset again - while one
+	// subscriber is slow (stalled, then released) and one is not: the deletes a
+	// Reset announces cover, for every subscriber, what was announced before them
+	for _, st := range []string{"never", "transient"} {
+		for _, sc := range [][]wop{{{"upd", "a/c"}, {"reset", ""}, {"upd", "a/c"}, {"reset", ""}}, {{"reset", ""}, {"upd", "a/b"}, {"reset", ""}, {"upd", "a/c"}}} {
+			out = append(out, xplore.Config{Name: fmt.Sprintf("A stall=%s | B normal | W(t1)=%s (flapping target)", st, scriptName(sc)), Bound: 1, Data: cfg08{stall: st, script: sc}})
+		}
+	}
 	// a subscriber attaching at any point of a Reset (before, between the
 	// per-root steps, after): the deletes announced to the feed must cover
 	// whatever its walk showed it. Subscriptions on a/... only, so that the
@@ -116,6 +124,9 @@ func firstPath(n *pb.Notification) *pb.Path {
 }
 
 func run14(cfg xplore.Config, ch vrt.Chooser, trace bool) (xplore.Outcome, *vrt.Result) {
+	if _, ok := cfg.Data.(cfg08); ok {
+		return run08(cfg, ch, trace)
+	}
 	if d, ok := cfg.Data.(cfg04); ok {
 		d.reverse = cfg.Reverse
 		cfg.Data = d
